@@ -338,6 +338,27 @@ func (eng *Engine) buildIntercepts() {
 	ic["bytes.Equal"] = func(ex *Exec, caller *frame, fn *ssa.Function, args []Value) Value {
 		return ex.bytesEqual(bytesOf(ex, args[0]), bytesOf(ex, args[1]))
 	}
+	// bytes.Compare: lexicographic, exact (lengths are concrete): -1 / 0 / +1 as a 64-bit term
+	ic["bytes.Compare"] = func(ex *Exec, caller *frame, fn *ssa.Function, args []Value) Value {
+		a, b := bytesOf(ex, args[0]), bytesOf(ex, args[1])
+		tt := ex.tt
+		minus, zero, plus := tt.BV(64, ^uint64(0)), tt.BV(64, 0), tt.BV(64, 1)
+		n := len(a)
+		if len(b) < n {
+			n = len(b)
+		}
+		res := zero
+		switch {
+		case len(a) < len(b):
+			res = minus
+		case len(a) > len(b):
+			res = plus
+		}
+		for i := n - 1; i >= 0; i-- {
+			res = tt.Ite(tt.Cmp(OUlt, a[i], b[i]), minus, tt.Ite(tt.Cmp(OUlt, b[i], a[i]), plus, res))
+		}
+		return res
+	}
 	ic["sort.Slice"] = func(ex *Exec, caller *frame, fn *ssa.Function, args []Value) Value {
 		s := args[0].(IfaceV).v.(SliceV)
 		n := len(s.data)
